@@ -156,6 +156,10 @@ def rules(chk, db):
     from . import c12, c13
     c12.explore(chk, db, prefix='TV.')
     c13.typestate(chk, db, prefix='TS.')
+    # BoundedReader<FdReader>: a block read asks for exactly what is still missing (a stale length after a short read writes past
+    # the destination)
+    chk.rule('FDR', 'fd reader: every read(2) asks for the bytes still missing; success only when all arrived', minimum=2)
+    rwrules.check_fd_class(chk, db, 'nop::FdReader', 'reader', 'FDR')
 
 
 def run(chk, db):
